@@ -61,7 +61,14 @@ def _create_h1(data, meta) -> Histogram1D:
     binning = FixedWidthBinning(
         bin_width=(max_ - min_) / bin_count, bin_count=bin_count, min=min_
     )
-    stats = Statistics(sum=data[1:-1, 3].sum(), sum2=data[1:-1, 4].sum())
+    # The moments belong to the weight (Sw) of the same rows; the extremes are not in the file
+    stats = Statistics(
+        sum=data[1:-1, 3].sum(),
+        sum2=data[1:-1, 4].sum(),
+        weight=float(data[1:-1, 1].sum()),
+        min=np.nan,
+        max=np.nan,
+    )
 
     hist = Histogram1D(
         binning,
